@@ -8,10 +8,10 @@ def truncate_chars(val: str, num: int, end: str = "...") -> str:
     val_length = len(val)
     end_length = len(end)
 
-    if val_length < num:
+    if val_length <= num:
         return val
 
-    return f"{val[:num-end_length]}{end}"
+    return f"{val[:max(num - end_length, 0)]}{end}"
 
 
 # Note: truncate_words is no longer used by the truncatewords filter.
